@@ -572,6 +572,65 @@ pub fn run_check(replay: Option<Value>) -> i32 {
     });
     rep.absorb(pouts.into_iter().flatten().collect());
 
+    // an index-1 DAE with a nonlinear constraint, driven along a non-trivial trajectory:
+    // x' = -x + z + cos t, 0 = z + 10 z^3 - x^2.  The constraint holds at every sample at the level of the tolerance
+    // (a stale or over-optimistic Newton convergence estimate shows here first: one sweep is not enough)
+    for (si, ms) in [MatrixStorage::Full, MatrixStorage::Banded { ml: 0, mu: 0 }].iter().enumerate() {
+        for jsrc in 0..2usize {
+            for (ti, tol) in [1e-6, 1e-9].iter().enumerate() {
+                let key = format!("cubicdae:{}.{}.{}", si, jsrc, ti);
+                if only.as_ref().map(|o| *o != key).unwrap_or(false) {
+                    continue;
+                }
+                let mut z0 = 0.0f64;
+                for _ in 0..200 {
+                    let dz = (z0 + 10.0 * z0 * z0 * z0 - 1.0) / (1.0 + 30.0 * z0 * z0);
+                    z0 -= dz;
+                    if dz.abs() < 1e-17 {
+                        break;
+                    }
+                }
+                let p = Prob {
+                    name: "index-1 DAE with a cubic constraint".into(),
+                    n: 2,
+                    f: Arc::new(|t, y, d| {
+                        d[0] = -y[0] + y[1] + t.cos();
+                        d[1] = y[1] + 10.0 * y[1] * y[1] * y[1] - y[0] * y[0];
+                    }),
+                    jac: Some(Arc::new(|_t, y| vec![-1.0, 1.0, -2.0 * y[0], 1.0 + 30.0 * y[1] * y[1]])),
+                    flow: None,
+                    y0: vec![1.0, z0],
+                    linear_homogeneous: false,
+                };
+                let mut c = Cfg::new(Method::RADAU, 0.0, 10.0, &p.y0).tol(*tol, tol * 1e-3);
+                c.user_jac = jsrc == 0;
+                c.mass_storage = ms.clone();
+                let massf = |m: &mut Matrix| {
+                    m[(0, 0)] = 1.0;
+                    m[(1, 1)] = 0.0;
+                };
+                let r = run_with(&p, &c, None, Some(&massf));
+                rep.evaluations += 1;
+                rep.transitions += r.st.n_ode;
+                let desc = json!({"key": key, "problem": p.name, "mass_storage": format!("{:?}", ms), "jacobian": if jsrc == 0 { "user" } else { "finite-difference" }, "rtol": tol, "outcome": r.outcome_name()});
+                match r.sol() {
+                    Some(s) if s.status == Status::Success => {
+                        let w = s.y.iter().fold(0.0f64, |a, y| a.max((y[1] + 10.0 * y[1] * y[1] * y[1] - y[0] * y[0]).abs()));
+                        if std::env::var("VERIF_DEBUG").is_ok() {
+                            println!("DBG cubicdae {} residual {:e} ({:.2} rtol)", key, w, w / tol);
+                        }
+                        if w > 20.0 * tol {
+                            rep.violations.push(Violation::new(&key, "dae-constraint", format!("the constraint z + 10 z^3 = x^2 is violated by {:e} at a sample (20 rtol = {:e})", w, 20.0 * tol), desc).with("mass", "cubic").with("n", 2));
+                        }
+                        rep.validated += s.t.len() as u64;
+                        *rep.tags.entry("nonlinear-constraint".into()).or_insert(0) += 1;
+                    }
+                    _ => rep.violations.push(Violation::new(&key, "outcome", format!("cubic DAE: run ended with {}", r.outcome_name()), desc).with("mass", "cubic").with("n", 2)),
+                }
+            }
+        }
+    }
+
     // an ODE whose equations are listed in exchanged order: M = [[0,1],[1,0]], f = (y0 - 2 y1, -y0), i.e.
     // y0' = -y0, y1' = y0 - 2 y1 with y = (e^-t, e^-t + 2 e^-2t).  J has an exact zero at (1,1): every complex
     // factorisation interchanges rows and meets a zero entry in the pivot row
@@ -736,6 +795,18 @@ pub fn run_check(replay: Option<Value>) -> i32 {
                 for (t, y) in s.t.iter().zip(&s.y) {
                     let ex = exact(*t);
                     worst = y.iter().zip(&ex).fold(worst, |a, (u, v)| a.max((u - v).abs()));
+                }
+                // the algebraic constraint 0 = z - u^2 holds at every sample at the level of the tolerance (the algebraic
+                // variable of the two-component form carries up to 83 (atol + rtol) on the tree)
+                let mut cres: f64 = 0.0;
+                for y in &s.y {
+                    cres = cres.max((y[0] - y[n - 1] * y[n - 1]).abs());
+                }
+                if std::env::var("VERIF_DEBUG").is_ok() {
+                    println!("DBG daeperm {} constraint residual {:e} (rtol {:e}) worst err {:e}", key, cres, rtol, worst);
+                }
+                if cres > 300.0 * (atol + rtol) {
+                    out.violations.push(Violation::new(&key, "dae-constraint", format!("the constraint z = u^2 is violated by {:e} at a sample (300 (atol + rtol) = {:e}; measured on the tree: up to 83)", cres, 300.0 * (atol + rtol)), desc.clone()).with("mass", "permuted").with("n", n));
                 }
                 if worst > bound {
                     out.violations.push(Violation::new(&key, "dae-perm-accuracy", format!("worst sample error {:e} against the closed form exceeds 50*naccpt*tol = {:e}", worst, bound), desc.clone()).with("mass", "permuted").with("n", n));
